@@ -15,6 +15,19 @@ CHECKS = {
                      "nothing is sampled.",
                 note="Trusted: kernel/sh/SQLite semantics, the reference evaluator (60 lines), the canonical-key argument of DESIGN.md appendix C. "
                      "Graphs beyond the listed worlds and histories beyond depth d are not covered."),
+    "C02": dict(engine="E1", category="model_checking", design_ref="DESIGN.md §4 C02",
+                technique="explicit-state BFS over operation histories on the real binary; executed-script multiset vs reference build simulation",
+                text="Same bounded history space as C01; for every build command the multiset of executed .do scripts (append-only trace written by the "
+                     "generated scripts) must equal the reference simulation that tracks, per target, the versions of the dependencies seen at its last "
+                     "successful build (incl. its .do file and absent higher-priority candidates); each script at most once. Exhaustive within depth d.",
+                note="Reference model (rv/refmodel.py) is trusted; two documented slack rules (S1,S2) follow the observation. -j1 only; parallel runs are C07."),
+    "C03": dict(engine="E1", category="model_checking", design_ref="DESIGN.md §4 C03",
+                technique="explicit-state BFS over operation histories on worlds with checksummed nodes; cut-off/forwarding vs reference simulation",
+                text="All histories <= d (quick 3, thorough 4-5) over worlds with a redo-stamp node at depth 1..3, two in series and one with plain+always "
+                     "dependents, with edits that do and do not alter the stamped bytes; executed set must equal the reference (no dependent runs after an "
+                     "unchanged checksum; every dependent runs in the same command after a changed one) and contents must equal the from-scratch evaluation. "
+                     "The run fails as vacuous unless all four quadrants (changed/unchanged x in-band/out-of-band) were exercised.",
+                note="Trusted: reference model; flat worlds; -j1."),
 }
 
 NOT_YET = "check not built yet in this session (work in progress; see DESIGN.md §4 for the planned bounded exhaustive check)"
